@@ -14,11 +14,14 @@ def rnd_signature(k, rng):
     if mode < 0.15:
         return "N" * k
     alpha = "ACGT" if mode < 0.55 else "ACGTNRYSWKMBDHV"
-    return "".join(rng.choice(alpha) for _ in range(k))
+    sig = "".join(rng.choice(alpha) for _ in range(k))
+    if rng.random() < 0.25:       # nucleotide letters of a signature may be written in lower case
+        sig = "".join(c.lower() if c in "ACGT" and rng.random() < 0.6 else c for c in sig)
+    return sig
 
 
 def sig_instance(sig, rng):
-    return "".join(rng.choice(gen.IUPAC[c]) for c in sig)
+    return "".join(rng.choice(gen.IUPAC[c.upper()]) for c in sig)
 
 
 def generic_members(rng, per, roles=("module", "vector"), mini=True):
